@@ -103,10 +103,24 @@ fn rust_api(c: &mut Case, env: &Env, wb: i32, bytes: &[u8], expect: usize) -> Re
 
 fn header_capture(c: &mut Case, env: &Env, cap_arena: &[Arena; 3], bytes: &[u8], expect: usize) -> Result<(), String> {
     unsafe {
-        for cap in [None, Some(0usize), Some(1), Some(6)] {
+        for (ci, cap) in [None, Some(0usize), Some(1), Some(6), Some(1), Some(6)].into_iter().enumerate() {
             let mut s = Strm::guarded(0x99);
             if Rs::inflateInit2_(s.p(), 31, Rs::zlibVersion(), STREAM_SIZE) != Z_OK {
                 return Err("init".into());
+            }
+            if ci >= 4 {
+                // a recycled stream: abandoned in the middle of a 300-byte stored block of another member, then reset
+                let mut prior = vec![0x1f, 0x8b, 8, 0, 0, 0, 0, 0, 0, 3, 0x00, 0x2c, 0x01, 0xd3, 0xfe];
+                prior.extend(std::iter::repeat(0x41).take(100));
+                s.z.next_in = env.ain.put(&prior, env.at_end);
+                s.z.avail_in = prior.len() as u32;
+                s.z.next_out = env.aout.place(64, env.at_end);
+                s.z.avail_out = 64;
+                let _ = Rs::inflate(s.p(), Z_NO_FLUSH);
+                if Rs::inflateReset(s.p()) != Z_OK {
+                    Rs::inflateEnd(s.p());
+                    return Err("inflateReset failed".into());
+                }
             }
             let mut head = Box::new(zeroed_header());
             if let Some(n) = cap {
